@@ -4159,6 +4159,8 @@ class Wallet(object):
 
         transaction.txid = transaction.signature_hash()[::-1].hex()
         if not transaction.fee_per_kb:
+            # The change outputs are part of the transaction now, do not count an extra one
+            transaction.size = transaction.estimate_size(number_of_change_outputs=0)
             transaction.fee_per_kb = int((transaction.fee * 1000.0) / transaction.vsize)
         if transaction.fee_per_kb < transaction.network.fee_min:
             raise WalletError("Fee per kB of %d is lower then minimal network fee of %d" %
